@@ -120,3 +120,16 @@ func verifFlags(a bool, b bool) int {
 	}
 	return n
 }
+
+// verifSnapshotEnd returns the index of the last item of a snapshot plus one
+// (the number of records the reader had delivered when the snapshot was taken).
+func verifSnapshotEnd(snapshot []*Chunk) int {
+	if len(snapshot) == 0 {
+		return 0
+	}
+	last := snapshot[len(snapshot)-1]
+	if last.count == 0 {
+		return 0
+	}
+	return int(last.items[last.count-1].Index()) + 1
+}
